@@ -4,7 +4,8 @@ CONSTANTS
   Times <- TimesQ
   Curves <- CurvesQ
   MaxSeg = 2
-  QTicks = {0, 24, 200}
+  MaxPts = 2
+  QTicks = {24, 200}
 INVARIANT FormatWellFormed
 INVARIANT NodesEncoded
 INVARIANT WrapLaw
